@@ -83,7 +83,7 @@ def _check_own(cx):
         def ev(x):
             if x['kind'] == 'call' and x['name'] == 'std::mem::replace' and len(x['args']) > 1:
                 a = strip(x['args'][1])
-                if a[0] == 'agg' and a[2].endswith('::Connected') and '@' in access_path(x['args'][0])[1]:
+                if a[0] == 'agg' and a[1] == 'adt' and '@' in access_path(x['args'][0])[1]:      # the new state value (whatever its variant is called)
                     return ('replace',)
             if x['kind'] in ('call', 'enter') and x['name'].endswith('ConnectableObservable::connect'):
                 return ('connect',)
